@@ -105,3 +105,81 @@ pub fn run() {
         }
     }
 }
+
+// ---------------------------------------------------------------------------
+// self tests (run by bin/setup)
+
+pub struct TimerWorld {
+    ticks: u32,
+    woke: std::rc::Rc<std::cell::RefCell<Vec<(u64, u128)>>>,
+}
+
+impl Scenario for TimerWorld {
+    type Cfg = ();
+    type Ev = u32;
+    fn build(_: &()) -> Pin<Box<dyn Future<Output = Self>>> {
+        Box::pin(async move {
+            let woke = std::rc::Rc::new(std::cell::RefCell::new(Vec::new()));
+            for d in [1000u64, 200, 3000] {
+                let w = woke.clone();
+                ntex_rt::spawn(async move {
+                    ntex_util::time::sleep(ntex_util::time::Millis(d as u32)).await;
+                    w.borrow_mut().push((d, ntex_util::time::vclock::elapsed().as_millis()));
+                });
+            }
+            TimerWorld { ticks: 0, woke }
+        })
+    }
+    fn enabled(&self, q: bool) -> Vec<u32> {
+        if q && self.ticks < 400 { vec![10] } else { vec![] }
+    }
+    fn apply(&mut self, ms: u32) {
+        self.ticks += 1;
+        ntex_util::time::vclock::advance(Duration::from_millis(ms as u64));
+    }
+    fn check(&mut self, _q: bool) -> Result<(), Violation> {
+        Ok(())
+    }
+    fn finish(&mut self) -> Result<Outcome, Violation> {
+        Ok(Outcome { obs: format!("{:?}", self.woke.borrow()), nontrivial: true })
+    }
+}
+
+pub fn selftest() -> i32 {
+    // 1. virtual clock: sleeps complete in deadline order, each within [d, d + 40ms] of virtual time
+    let rec = run_one::<TimerWorld>(&(), &[], 100_000);
+    let obs = match &rec.verdict {
+        Some(Verdict::Ok(o)) => o.obs.clone(),
+        v => {
+            eprintln!("selftest: timer world failed: {v:?}");
+            return 2;
+        }
+    };
+    let wall_ok = obs.starts_with("[(200, 2") && obs.contains("(1000, 10") && obs.contains("(3000, 30");
+    println!("selftest vclock: {obs}");
+    if !wall_ok {
+        eprintln!("selftest: virtual clock wake-up times out of tolerance");
+        return 2;
+    }
+    // 2. replay determinism: same schedule twice -> identical observation log
+    for ver in [Ver::V3, Ver::V5] {
+        let cfg = Cfg { ver, n: 3 };
+        let a = run_one::<Smoke>(&cfg, &[0, 1, 0, 0, 2], 20_000);
+        let b = run_one::<Smoke>(&cfg, &[0, 1, 0, 0, 2], 20_000);
+        if a.log != b.log || a.points != b.points || a.polls != b.polls {
+            eprintln!("selftest: replay of one schedule diverged ({ver:?})");
+            return 2;
+        }
+        println!("selftest determinism {ver:?}: polls={} points={} ok", a.polls, a.points.len());
+    }
+    // 3. exploration counts are reproducible
+    let ecfg = ExploreCfg { max_dev: 1, ..Default::default() };
+    let s1 = explore::<Smoke>(&Cfg { ver: Ver::V5, n: 3 }, &ecfg, Instant::now() + Duration::from_secs(60));
+    let s2 = explore::<Smoke>(&Cfg { ver: Ver::V5, n: 3 }, &ecfg, Instant::now() + Duration::from_secs(60));
+    if s1.execs != s2.execs || s1.points != s2.points || s1.transitions != s2.transitions {
+        eprintln!("selftest: two explorations differ: {} vs {}", s1.execs, s2.execs);
+        return 2;
+    }
+    println!("selftest explore: execs={} points={} transitions={} (twice identical)", s1.execs, s1.points, s1.transitions);
+    0
+}
